@@ -107,7 +107,7 @@ CLAIMS = {
         "technique": "who-writes over redb mutators, must-pass-through (no Ok exit bypassing a paired operation) on match-arm regions, derives-from of comparison operands",
     },
     "C17": {
-        "text": "Decides progress and wake-up discipline of the relay receive path: the segment count given to take_segments is proven >= 1, the stored pending item is cleared exactly when empty (or undeliverable), poll_recv_queue serves the stored item first and returns Pending only from the channel, and every way out of the receive loop that can end in Poll::Pending follows the channel's Pending or re-arms the waker. Exactly-once/in-order delivery of bytes is not decided.",
+        "text": "Decides progress and wake-up discipline of the relay receive path: the segment count given to take_segments is proven >= 1, the stored pending item is cleared exactly when empty (or undeliverable), poll_recv_queue serves the stored item first and returns Pending only from the channel, and every way out of the receive loop that can end in Poll::Pending follows the channel's Pending or re-arms the waker. The segmentation of a batch that is re-batched across several polls (payload bytes, count, segment size of the remainder) is decided under C16 (Datagrams::take_segments), not here. Exactly-once/in-order delivery of bytes is not decided.",
         "technique": "partial-arithmetic rule (zero quotient as progress count), success-edge dominance, loop-exit coverage on the CFG",
     },
     "C20": {
